@@ -1,6 +1,7 @@
 // C02 (do_move follows the rules), C03 (undo restores everything), C04 (key is a function of the position),
 // C07 (check / mate / stalemate / draw predicates agree with the game history)
 #include "bridge.h"
+#include "../gen/matepool.h"
 #include "ucisession.h"
 #include "registry.h"
 #include "score.h"
@@ -820,7 +821,32 @@ bool prop_C07(Tape& t, Report& rep)
     br::init_engine();
     int maxPlies = int(opt_int("plies", g_tier ? 700 : 300));
     gen::Root game;
-    if (t.chance(1, 8))
+    if (t.chance(1, 12))
+    {
+        // a special move (en passant, promotion, castling, discovered / double check) that mates: check and mate predicates
+        // of the position reached by exactly that move on a live Position object
+        const mp::Pool& P = mp::pool(uint64_t(opt_int("zseed", 1)), opt_int("matepool_tries", 150000), size_t(opt_int("matepool_cap", 16)));
+        int k = int(t.choose(mp::NKIND));
+        ref::Pos s = P.k[k].empty() ? ref::startpos() : P.k[k][t.choose(uint32_t(P.k[k].size()))].p;
+        game.start = game.cur = s;
+        game.kind = std::string("special_mate_pool:") + mp::KNAME[k];
+        if (!P.k[k].empty())
+        {
+            // one or two quiet plies first when possible, then the mating move must still be there; otherwise play it at once
+            for (auto& m : ref::legal_moves(s))
+            {
+                ref::Pos q = ref::make(s, m);
+                if (ref::in_check(q, q.wtm) && ref::legal_moves(q).empty())
+                {
+                    game.moves.push_back(m);
+                    game.cur = q;
+                    break;
+                }
+            }
+            rep.cls("c07:special_mate_pool_game");
+        }
+    }
+    else if (t.chance(1, 8))
     {
         // the just-pushed pawn gives check and capturing it en passant is the only reply: "is it mate?" hinges on that move
         ref::Pos s = gen::theme_ep_evasion(t, &rep);
